@@ -341,7 +341,7 @@ class G:
             elif op == 'zip':
                 node = {'op': 'zip', 'up': ps}
                 if self.chance(0.6):
-                    node['maxsize'] = self.pick([1, 1, 2, 3])
+                    node['maxsize'] = self.pick([0, 1, 1, 2, 3])
                 members = list(ts)
                 if self.chance(0.3):
                     pos = r.randrange(len(ps) + 1)
